@@ -4,3 +4,5 @@ extern "C" int nv_add(int a, int b)
     return a + b;
 }
 extern "C" { int nv_null_symbol_value = 0; }
+// a symbol that is defined and whose address is null (an absolute symbol, as version nodes are): looking it up succeeds
+__asm__(".globl nv_defined_at_null\n.set nv_defined_at_null, 0\n");
